@@ -249,6 +249,14 @@ def build():
                 } """
         sd.body = sd.body[:c_] + ARM_END + sd.body[c_:]
         sd.spec_inserts += 1
+        if kind == 'Add':
+            # H (finding C02-fusion-onto-private-input): an Add whose out slot has no earlier definer IN THE OP LIST is taken to compute that slot.
+            # A private input has no defining op, so `lhs - product` with a private lhs (lowered to Add(product, result, lhs)) is mistaken for a forward add.
+            H = ''' proof { if !(d0.dom().contains(*out) && d0[*out].idx < n) {
+                        assert(!is_private_input_slot(*out)); // @@A:H_an_add_whose_out_has_no_definer_in_the_op_list_does_not_write_a_private_input
+                    } } '''
+            sd.body = sd.body[:o_ + 1] + H + sd.body[o_ + 1:]
+            sd.spec_inserts += 1
     # other Alu / Public arm
     sd.at_enclosing_block_end('Op::Alu { out, .. } | Op::Public { out, .. } => {', '''proof {
                     lemma_open(d0, ops@, n);
